@@ -15,6 +15,7 @@ fn worlds(thorough: bool) -> Vec<Built> {
     let mut v = vec![stdworlds::build_with_roots(&stdworlds::std_spec("c05-std-dfd", [Enc::Dynamic, Enc::Fixed, Enc::Dynamic], 3000, 300), &stdworlds::std_roots())];
     v.push(stdworlds::build_with_roots(&stdworlds::chain_spec("c05-chain-ddd", [Enc::Dynamic, Enc::Dynamic, Enc::Dynamic], 100, 0), &stdworlds::chain_roots()));
     if thorough {
+        v.push(stdworlds::build_with_roots(&stdworlds::chain_spec_at("c05-chain-low", [Enc::Dynamic, Enc::Fixed, Enc::Dynamic], 3000, 300, -112640), &stdworlds::chain_roots()));
         v.push(stdworlds::build_with_roots(&stdworlds::std_spec("c05-std-fdf", [Enc::Fixed, Enc::Dynamic, Enc::Fixed], 100, 0), &stdworlds::std_roots()[1..]));
     }
     let splash_roots: Vec<(&'static str, Vec<Op>)> = vec![
@@ -34,6 +35,10 @@ fn worlds(thorough: bool) -> Vec<Built> {
 
 /// liquidity changes and swaps that cross / land on / stop short of ticks or run to the protocol bounds; no fee ops (irrelevant here)
 fn alphabet(b: &Built) -> Vec<Op> {
+    stdworlds::shift_repos(alphabet0(b), stdworlds::origin_of(&b.w))
+}
+
+fn alphabet0(b: &Built) -> Vec<Op> {
     let n = b.w.positions.len() as u8;
     let mut a = vec![];
     for pos in 0..n {
